@@ -87,6 +87,14 @@ func DecodeStr(enc string) string {
 	return sb.String()
 }
 
+// normExc folds the SyntaxError family into SyntaxError (the properties speak of the family).
+func normExc(e string) string {
+	if e == "IndentationError" || e == "TabError" {
+		return "SyntaxError"
+	}
+	return e
+}
+
 // Diff is the outcome of one differential run.
 type Diff struct {
 	Sig      string // "" = agreement
@@ -131,7 +139,8 @@ func PyDiff(prog string, o PyDiffOpts) (*Diff, error) {
 		return nil, err
 	}
 	d := &Diff{G: g, O: resp, Index: -1}
-	want := resp.ExcName()
+	want := normExc(resp.ExcName())
+	g.Exc = normExc(g.Exc)
 	if want == "TIMEOUT" {
 		return nil, fmt.Errorf("oracle timeout on generated program (generator unsound):\n%s", prog)
 	}
